@@ -24,7 +24,9 @@ Adv == l' = l + 1 /\ UNCHANGED tid
 
 FiltersOf(r) == IF Workload[r].k = "sub" THEN [i \in 1..Len(Workload[r].subs) |-> Workload[r].subs[i].f] ELSE Workload[r].fs
 
-TSubmit == Is("Submit") /\ Submit /\ Adv
+\* the request exists from the moment the API is called (the Submit event is recorded after the call
+\* returned, by which time the task goroutine may already have written the packet)
+TSubmit == Is("SubmitCall") /\ Submit /\ Adv
 TDialOk == Is("Dial") /\ Ev.res = "ok" /\ RLDialOk /\ Adv
 TDialFail == Is("Dial") /\ Ev.res = "fail" /\ RLDialFail /\ Adv
 TConnect ==
@@ -43,7 +45,7 @@ TWrite ==
 TPeerClose == Is("Close") /\ Ev.by = "peer" /\ PeerClose(Ev.g) /\ Adv
 \* closes by the plan (inside a write) and by the client itself are part of the write / TGAfter actions
 TSkip == /\ l <= Len(TL)
-         /\ \/ TL[l].e \in {"SubmitCall", "Call", "Ret", "ConnOpt", "ConnState", "OnError", "Send", "Read", "Idle", "Sample"}
+         /\ \/ TL[l].e \in {"Submit", "Call", "Ret", "ConnOpt", "ConnState", "OnError", "Send", "Read", "Idle", "Sample"}
             \/ (TL[l].e = "Close" /\ TL[l].by # "peer")
             \/ (TL[l].e = "Dial" /\ TL[l].res = "ctx")
          /\ Adv /\ UNCHANGED vars
